@@ -403,6 +403,19 @@ func (x *Exec) static(st *State, fn *ssa.Function, c *ssa.CallCommon, args []SVa
 	case pkg == "github.com/samber/lo" && (name == "TryCatchWithErrorValue" || strings.HasPrefix(name, "TryCatchWithErrorValue")):
 		x.tryCatch(st, args, pos, k)
 		return
+	case pkg == "github.com/samber/lo" && len(name) == 2 && name[0] == 'T' && name[1] >= '2' && name[1] <= '9' && fn.Signature.Results().Len() == 1:
+		// lo.T2(a, b) ... lo.T9: tuple constructors (assumed contract: field i holds argument i)
+		rt := fn.Signature.Results().At(0).Type()
+		if c != nil && c.Signature() != nil && c.Signature().Results().Len() == 1 {
+			rt = c.Signature().Results().At(0).Type()
+		}
+		elems := make([]SVal, len(args))
+		copy(elems, args)
+		for i := range elems {
+			elems[i].Src = ""
+		}
+		ret(SVal{K: KStruct, Elems: elems, GoT: rt})
+		return
 	case pkg == "context" && (name == "Background" || name == "TODO"):
 		ret(SVal{K: KU, T: q(x.D.constOf("ctx!"+name, "U")), GoT: fn.Signature.Results().At(0).Type(), Src: "context." + name})
 		return
